@@ -3,20 +3,24 @@ import Afkak.Consumer
 # Monitors for C02 — evaluated by the driver on IMPLEMENTATION traces, proved of every model trace.
 
 A trace is the chronological list of `Item`s: applied events (`ev`), rejected events (`rej`, ignored)
-and observations (`ob`).  Every monitor is a fold `stepM` over the trace with a small state; `none` =
-the property is violated.  `runR` folds a NEWEST-FIRST list (the shape the model accumulates), `…Ok`
+and observations (`ob`).  Every monitor is a fold over the trace with a small state whose flag `bad`
+is set (and never cleared) when the property is violated.  `runR` folds a NEWEST-FIRST list (the shape the model accumulates), `…Ok`
 takes the chronological trace.
 -/
 namespace Afkak.Monitor
 open Afkak.Consumer
 
-/-- Fold a monitor over a newest-first trace. -/
-def runR {σ : Type} (f : σ → Item → Option σ) (init : σ) : List Item → Option σ
-  | [] => some init
-  | x :: rest => (runR f init rest).bind (fun m => f m x)
+/-- Fold a monitor over a newest-first trace (the shape the model accumulates). -/
+def runR {σ : Type} (f : σ → Item → σ) (init : σ) : List Item → σ
+  | [] => init
+  | x :: rest => f (runR f init rest) x
 
-def accepts {σ : Type} (f : σ → Item → Option σ) (init : σ) (tr : List Item) : Bool :=
-  (runR f init tr.reverse).isSome
+/-- A monitor state records a violation in a sticky flag. -/
+class HasBad (σ : Type) where
+  bad : σ → Bool
+
+def accepts {σ : Type} [HasBad σ] (f : σ → Item → σ) (init : σ) (tr : List Item) : Bool :=
+  !HasBad.bad (runR f init tr.reverse)
 
 /-- strictly increasing offsets, all above `lo` when given -/
 def incFrom : Option Int → List Msg → Bool
@@ -37,76 +41,98 @@ structure IncSt where
   last : Option Int := none     -- offset of the last message handed to the processor
   armed : Bool := false         -- a permitted discontinuity has happened since the last descent
   saved : Bool := false         -- `armed` before the latest `start` call (restored if it raised)
+  bad : Bool := false
   deriving DecidableEq, Repr
 
+instance : HasBad IncSt := ⟨IncSt.bad⟩
+
 /-- `hasReset`: an `auto_offset_reset` policy is configured. -/
-def incStep (hasReset : Bool) (m : IncSt) : Item → Option IncSt
-  | .ev (.start _) => some { m with armed := true, saved := m.armed }
-  | .ob .raisedRestart => some { m with armed := m.saved }
-  | .ev (.fetchErr _ .outOfRange _) => some (if hasReset then { m with armed := true } else m)
+def incStep (hasReset : Bool) (m : IncSt) : Item → IncSt
+  | .ev (.start _) => { m with armed := true, saved := m.armed }
+  | .ob .raisedRestart => { m with armed := m.saved }
+  | .ev (.fetchErr _ .outOfRange _) => if hasReset then { m with armed := true } else m
   | .ob (.proc blk) =>
     match blk with
-    | [] => none                      -- the processor is never called with an empty list
+    | [] => { m with bad := true }        -- the processor is never called with an empty list
     | b :: _ =>
       if incFrom none blk then
         match m.last with
-        | none => some { m with last := lastOff blk }
+        | none => { m with last := lastOff blk }
         | some l =>
-          if l < b.off then some { m with last := lastOff blk }
-          else if m.armed then some { m with last := lastOff blk, armed := false }
-          else none
-      else none
-  | _ => some m
+          if l < b.off then { m with last := lastOff blk }
+          else if m.armed then { m with last := lastOff blk, armed := false }
+          else { m with bad := true }
+      else { m with bad := true }
+  | _ => m
 
 def increasingOk (hasReset : Bool) (tr : List Item) : Bool := accepts (incStep hasReset) {} tr
 
 /-! ### The processor is never invoked while its previous result is pending -/
 
-def ovStep (pending : Bool) : Item → Option Bool
-  | .ob (.proc _) => if pending then none else some false
-  | .ob (.procRet .defer) => some true
-  | .ob .procCancel => some false
-  | .ev .procOk => some false
-  | .ev (.procErr _ _) => some false
-  | _ => some pending
+structure OvSt where
+  pending : Bool := false
+  bad : Bool := false
+  deriving DecidableEq, Repr
 
-def noOverlapOk (tr : List Item) : Bool := accepts ovStep false tr
+instance : HasBad OvSt := ⟨OvSt.bad⟩
+
+def ovStep (m : OvSt) : Item → OvSt
+  | .ob (.proc _) => if m.pending then { m with bad := true } else m
+  | .ob (.procRet .defer) => { m with pending := true }
+  | .ob .procCancel => { m with pending := false }
+  | .ev .procOk => { m with pending := false }
+  | .ev (.procErr _ _) => { m with pending := false }
+  | _ => m
+
+def noOverlapOk (tr : List Item) : Bool := accepts ovStep {} tr
 
 /-! ### One outstanding (uncancelled) fetch/offset request, one scheduled refetch -/
 
 structure SfSt where
   req : Option Nat := none
   timer : Bool := false
+  bad : Bool := false
   deriving DecidableEq, Repr
+
+instance : HasBad SfSt := ⟨SfSt.bad⟩
 
 def sfDone (m : SfSt) (k : Nat) : SfSt := if m.req == some k then { m with req := none } else m
 
-def sfStep (m : SfSt) : Item → Option SfSt
-  | .ob (.fetch k _ _) => if m.req.isNone then some { m with req := some k } else none
-  | .ob (.offsets k _) => if m.req.isNone then some { m with req := some k } else none
-  | .ob (.offsetFetch k) => if m.req.isNone then some { m with req := some k } else none
-  | .ob (.cancelReq k) => some (sfDone m k)
-  | .ev (.fetchOk k _) => some (sfDone m k)
-  | .ev (.fetchErr k _ _) => some (sfDone m k)
-  | .ev (.offsetOk k _) => some (sfDone m k)
-  | .ev (.offsetErr k _ _) => some (sfDone m k)
-  | .ev (.offsetFetchOk k _) => some (sfDone m k)
-  | .ev (.offsetFetchErr k _ _) => some (sfDone m k)
-  | .ob (.setTimer .retry _) => if m.timer then none else some { m with timer := true }
-  | .ob (.cancelTimer .retry) => some { m with timer := false }
-  | .ev .retryFire => some { m with timer := false }
-  | _ => some m
+def sfIssue (m : SfSt) (k : Nat) : SfSt := if m.req.isNone then { m with req := some k } else { m with bad := true }
+
+def sfStep (m : SfSt) : Item → SfSt
+  | .ob (.fetch k _ _) => sfIssue m k
+  | .ob (.offsets k _) => sfIssue m k
+  | .ob (.offsetFetch k) => sfIssue m k
+  | .ob (.cancelReq k) => sfDone m k
+  | .ev (.fetchOk k _) => sfDone m k
+  | .ev (.fetchErr k _ _) => sfDone m k
+  | .ev (.offsetOk k _) => sfDone m k
+  | .ev (.offsetErr k _ _) => sfDone m k
+  | .ev (.offsetFetchOk k _) => sfDone m k
+  | .ev (.offsetFetchErr k _ _) => sfDone m k
+  | .ob (.setTimer .retry _) => if m.timer then { m with bad := true } else { m with timer := true }
+  | .ob (.cancelTimer .retry) => { m with timer := false }
+  | .ev .retryFire => { m with timer := false }
+  | _ => m
 
 def singleFetchOk (tr : List Item) : Bool := accepts sfStep {} tr
 
 /-! ### Every delivered message is one a fetch reply carried (offset and payload as stored) -/
 
-def payStep (seen : List Msg) : Item → Option (List Msg)
-  | .ev (.fetchOk _ r) => some (r.msgs ++ seen)
-  | .ob (.proc blk) => if blk.all (fun m => seen.contains m) then some seen else none
-  | _ => some seen
+structure PaySt where
+  seen : List Msg := []
+  bad : Bool := false
+  deriving DecidableEq, Repr
 
-def payloadOk (tr : List Item) : Bool := accepts payStep [] tr
+instance : HasBad PaySt := ⟨PaySt.bad⟩
+
+def payStep (m : PaySt) : Item → PaySt
+  | .ev (.fetchOk _ r) => { m with seen := r.msgs ++ m.seen }
+  | .ob (.proc blk) => if blk.all (fun x => m.seen.contains x) then m else { m with bad := true }
+  | _ => m
+
+def payloadOk (tr : List Item) : Bool := accepts payStep {} tr
 
 /-! ### No gap, no duplicate, against a partition log (environment contract `FaithfulLog`) -/
 
@@ -117,28 +143,46 @@ def firstFrom (log : List Msg) (off : Int) : Option Msg := (log.filter (fun m =>
 def succIn (log : List Msg) (off : Int) : Option Msg := firstFrom log (off + 1)
 
 structure GapSt where
-  from? : Option Int := none     -- delivery must (re)start at the first log entry ≥ this
-  last : Option Int := none      -- otherwise it continues after this offset
+  from? : Option Int := none     -- a (re)start is pending: delivery may jump to the first log entry ≥ this
+  last : Option Int := none      -- offset of the last message delivered in this run
+  savedFrom : Option Int := none -- both, as they were before the latest `start` call (restored if it raised)
+  savedLast : Option Int := none
+  bad : Bool := false
   deriving DecidableEq, Repr
 
-/-- check one block: each message is the log entry expected next -/
-def gapBlock (log : List Msg) : GapSt → List Msg → Option GapSt
-  | m, [] => some m
-  | m, x :: xs =>
-    let expected := match m.from?, m.last with
-      | some f, _ => firstFrom log f
-      | none, some l => succIn log l
-      | none, none => none
-    if expected == some x then gapBlock log { from? := none, last := some x.off } xs else none
+instance : HasBad GapSt := ⟨GapSt.bad⟩
 
-def gapStep (log : List Msg) (reset : Option Int) (m : GapSt) : Item → Option GapSt
-  | .ev (.start off) => some (if 0 ≤ off then { from? := some off, last := none } else { from? := none, last := none })
-  | .ev (.offsetOk _ off) => some { from? := some off, last := none }
-  | .ev (.offsetFetchOk _ off) => some (if 0 ≤ off then { from? := some (off + 1), last := none } else m)
+/-- the rest of a block: each message is the log entry following the previous one -/
+def gapRest (log : List Msg) : Int → List Msg → Option Int
+  | l, [] => some l
+  | l, x :: xs => if succIn log l == some x then gapRest log x.off xs else none
+
+/-- one block: it continues after the last delivered message, or takes the pending (re)start -/
+def gapBlock (log : List Msg) (m : GapSt) : List Msg → GapSt
+  | [] => { m with bad := true }
+  | x :: xs =>
+    let continues := match m.last with
+      | some l => succIn log l == some x
+      | none => false
+    let restarts := match m.from? with
+      | some f => firstFrom log f == some x
+      | none => false
+    match gapRest log x.off xs with
+    | none => { m with bad := true }
+    | some l =>
+      if continues then { m with last := some l }
+      else if restarts then { m with from? := none, last := some l }
+      else { m with bad := true }
+
+def gapStep (log : List Msg) (m : GapSt) : Item → GapSt
+  | .ev (.start off) => { m with from? := (if 0 ≤ off then some off else none), last := none, savedFrom := m.from?, savedLast := m.last }
+  | .ob .raisedRestart => { m with from? := m.savedFrom, last := m.savedLast }
+  | .ev (.offsetOk _ off) => { m with from? := some off }
+  | .ev (.offsetFetchOk _ off) => if 0 ≤ off then { m with from? := some (off + 1) } else m
   | .ob (.proc blk) => gapBlock log m blk
-  | _ => let _ := reset; some m
+  | _ => m
 
-def noGapOk (log : List Msg) (reset : Option Int) (tr : List Item) : Bool := accepts (gapStep log reset) {} tr
+def noGapOk (log : List Msg) (tr : List Item) : Bool := accepts (gapStep log) {} tr
 
 end C02
 end Afkak.Monitor
